@@ -248,6 +248,8 @@ static void exec_c11(const void *k, res_t *r, const runcfg_t *cfg) {
     }
     if (FX.ref_len < 0 || FX.ref_len >= (int)sizeof FX.ref - 1) { res_label(r, "libc-declines"); return; }
     if (nfloat && ndir > 1) { res_label(r, "float-with-other-directives(not judged)"); return; }
+    /* %lc with a null wide character: C defines it through %ls of {0, 0} (prints nothing), glibc writes a NUL byte: no reference */
+    for (i = 0; i < c->nd; i++) if (c->d[i].conv == 'C' && c->d[i].vsel % 6 == 5) { res_label(r, "lc-NUL(no agreed reference)"); return; }
     cls = c11_class(c);
     ename = e->sink == SK_BUF ? "buffer" : "stream";
     fits = e->sink != SK_BUF || (size_t)FX.ref_len < FX.dmax;
@@ -287,6 +289,8 @@ static void exec_c11(const void *k, res_t *r, const runcfg_t *cfg) {
     if (e->sink == SK_BUF) {
         size_t L = strnlen((char *)FX.dest, FX.dmax);
         if (L >= FX.dmax) { res_label(r, "foreign-unterminated(C03)"); return; }
+        /* a NUL written by %c is part of the result: the terminator is the one at the returned count */
+        if ((size_t)FX.ret < FX.dmax && FX.dest[FX.ret] == 0 && (size_t)FX.ret > L) L = (size_t)FX.ret;
         outlen = L;
         if (!fits) {
             if (!e->trunc) {
@@ -295,7 +299,7 @@ static void exec_c11(const void *k, res_t *r, const runcfg_t *cfg) {
                 return;
             }
             /* documented truncation: dest must hold the first dmax-1 characters */
-            if (!nfloat && (L != FX.dmax - 1 || memcmp(FX.dest, FX.ref, L) != 0)) {
+            if (!nfloat && (FX.dest[FX.dmax - 1] != 0 || memcmp(FX.dest, FX.ref, FX.dmax - 1) != 0)) { /* bytes, a %c NUL included */
                 RES_VIOL(r, "C11:%s:wrong-truncated-text:%s", ename, cls);
                 RES_DETAIL(r, "\"%s\": truncated to \"%.40s\", libc prefix \"%.*s\"", FX.fmt, (char *)FX.dest, (int)(FX.dmax - 1), FX.ref);
             }
